@@ -320,13 +320,19 @@ CHECKS = {
     ),
     "C07": dict(
         category="model_checking",
-        text=("Exhaustive on small instances: for specifications with init_progr_len <= 4 (thorough 5) every instruction-id sequence up to "
-              "the bound is enumerated and checked by Lean's Spec.realizes; the solver's optimum under 13 option sets (criteria, bounds, "
-              "ordering and pruning constraints on/off) must cost the true minimum, unsat may not coincide with a realizable specification, "
-              "optima must agree across option sets, and soft cost minus true cost must be constant over enumerated models. Bounded "
-              "enumeration, labelled as such; no theorem about the bounds heuristics."),
+        text=("Pricing clause, proved: Models/EncodingSoft.lean generates the weighted clauses of soft_constraints_grouped_by_weight from the "
+              "weight table the real encoder computed (captured at the call); Enc.penalty_affine (kernel-checked, every valuation that "
+              "satisfies the domain constraints) says the objective equals the charged weight of the decoded instructions minus a constant "
+              "of the instance (telescope / layer_cake / term_miss: a clause that is missing because no cheaper instruction may sit at a "
+              "position is missing for every model). Tie: on every instance the generated clauses and weights must equal the emitted ones "
+              "as multisets. Optimality and satisfiability clauses, bounded: for specifications with init_progr_len <= 4 (thorough 5) every "
+              "instruction-id sequence up to the bound is enumerated and checked by Lean's Spec.realizes; the solver's optimum under 13 "
+              "option sets (criteria, bounds, ordering and pruning constraints on/off) must cost the true minimum, unsat may not coincide "
+              "with a realizable specification, optima must agree across option sets, and soft cost minus true cost must be constant over "
+              "enumerated models. No theorem about the position-bound heuristics or the pruning constraints (completeness); -direct-"
+              "inequalities soft constraints are outside the model."),
         design_ref="DESIGN.md section 8, C07",
-        technique="exhaustive enumeration of realizing sequences (Lean checker) against the solver optimum and soft-constraint pricing on small instances",
+        technique="Lean theorem on the soft-constraint objective (penalty_affine) with exact correspondence of the emitted weighted clauses; exhaustive enumeration of realizing sequences (Lean checker) against the solver optimum on small instances",
     ),
 }
 
